@@ -81,6 +81,14 @@ def gen_desc(seed, nsched):
     base = None
     if rng.random() < 0.3:
         base = {"rule": {"global": {"indent_size": rng.choice([2, 3, 4])}}}
+    if rng.random() < 0.5:
+        # documented option values for a handful of rules (the same in the reference and in every schedule)
+        base = base or {"rule": {}}
+        cand = [r for r in runner.RULES if r[1] != 0 and any(o in workload.option_domains() for o in r[6])]
+        for r in rng.sample(cand, min(len(cand), rng.choice([2, 6, 20]))):
+            o = workload.random_options(rng, r, 0.7)
+            if o:
+                base["rule"].setdefault(r[0], {}).update(o)
     srng = substream(seed, "schedule")
     schedules = [{"perm_seed": None, "disable": [], "enable": [], "phase": {}, "passes": [{"all": True, "skip": []}, {"all": True, "skip": []}], "report": True}]
     for k in range(nsched):
@@ -323,6 +331,8 @@ def plan(tier, seed):
     nb = (len(breadth_files(seed)) + 11) // 12  # every un-fixed rule input, in both tiers
     jobs += [{"prop": PROP, "mode": "breadth", "i": i, "per": 12, "nsched": 0, "seed": seed} for i in range(nb)]
     jobs += [{"prop": PROP, "mode": "cli-repeat", "i": i, "seed": H(seed, tier, PROP, "cli-repeat", i)} for i in range(30 if tier == "quick" else 1500)]
+    # the driver does not import vsg: the shards compute the triple list, job i takes every 16th
+    jobs += [{"prop": PROP, "mode": "exotic", "i": i, "of": 16, "seed": seed} for i in range(16)]
     jobs += common.regress_jobs(PROP, 1)
     return jobs
 
@@ -338,10 +348,9 @@ def run_breadth(job, env):
     fs = breadth_files(job["seed"])[job["i"] * job["per"] : (job["i"] + 1) * job["per"]]
     for k, p in enumerate(fs):
         d = gen_desc(H(job["seed"], "breadth", p), 0)
-        # second schedule: every default-disabled rule switched on as well, canonical order
-        # canonical single pass + a complementary pair of pruned schedules: for every two rules
+        d["base_config"] = None
+        # canonical two-pass check + a complementary pair of pruned schedules: for every two rules
         # of the pruned level that fall into different halves, each is once analysed without the other
-        d["schedules"][0]["passes"] = [{"all": True, "skip": []}]
         prng = substream(H(job["seed"], "pruned", p), "schedule")
         a = gen_pruned(prng, runner.RULES)
         d["schedules"].append(a)
@@ -350,6 +359,12 @@ def run_breadth(job, env):
         # without any neighbour of its own sub-phase level (predecessors untouched)
         focus = os.path.basename(os.path.dirname(p)) + "_" + os.path.basename(p).split("_")[1]
         fr = [r for r in runner.RULES if r[0] == focus]
+        if fr:
+            # ... under a random documented setting of all of its options
+            o = workload.random_options(prng, fr[0], 1.0)
+            if o:
+                d["base_config"] = {"rule": {focus: o}}
+                d["meta"]["focus_options"] = o
         if fr and fr[0][1] != 0:
             ph, sub = fr[0][1], fr[0][2]
             if sub > min(r[2] for r in runner.RULES if r[1] == ph):
@@ -359,7 +374,6 @@ def run_breadth(job, env):
         data = workload.read(p)
         d["sandbox"] = [workload.sb_entry("x.vhd", data)]
         d["style"] = None if k % 3 else "jcl"
-        d["base_config"] = None
         d["meta"].update({"from": os.path.relpath(p, workload.REPO), "size": len(data), "digest": wire.digest(data), "tags": [], "style": d["style"]})
         d["hashseed_class"] = job.get("class", 0)
         V, res = judge(d, env)
@@ -378,6 +392,63 @@ def run_breadth(job, env):
         out.d["steps"] += st["analyses"]
         for w in st["writers"]:
             out.probe("analysis_wrote_token_attribute:" + w)
+        if V:
+            out.violation(res.get("c06_followup_desc") or d, V)
+    return out.done()
+
+
+def exotic_triples():
+    """(rule, option, value) for every documented option value that is not a plain yes/no (the
+    blank-line `style` family is left to the random option vectors: 76 rules x 3 values)."""
+    dom = workload.option_domains()
+    out = []
+    for r in runner.RULES:
+        if r[1] == 0:
+            continue
+        for o in r[6]:
+            if o in dom and o not in ("case", "indent_size", "length", "style"):
+                for v in dom[o]:
+                    if v not in ("yes", "no"):
+                        out.append((r[0], o, v))
+    return out
+
+
+def rule_input(uid):
+    name, num = uid.rsplit("_", 1)
+    p = os.path.join(workload.REPO, "tests", name, "rule_%s_test_input.vhd" % num)
+    return p if os.path.exists(p) else None
+
+
+def run_exotic(job, env):
+    """One documented non-boolean option value on the rule's own test input: reference, canonical
+    two-pass check (repeatability on the same objects), focus schedule."""
+    out = common.JobResult(job)
+    trs = exotic_triples()
+    for uid, opt, val in trs[job["i"] :: job["of"]]:
+        p = rule_input(uid)
+        if p is None:
+            out.skipped("no-test-input-for-rule")
+            continue
+        d = gen_desc(H(job["seed"], "exotic", uid, opt, val), 0)
+        data = workload.read(p)
+        d["sandbox"] = [workload.sb_entry("x.vhd", data)]
+        d["style"] = None
+        d["base_config"] = {"rule": {uid: {opt: val}}}
+        d["meta"].update({"from": os.path.relpath(p, workload.REPO), "size": len(data), "digest": wire.digest(data), "tags": [], "style": None, "focus_options": {opt: val}})
+        d["hashseed_class"] = job.get("class", 0)
+        V, res = judge(d, env)
+        if V is None:
+            out.skipped("file-not-accepted")
+            continue
+        if not isinstance(V, list):
+            out.account(d, res, V, None, nontrivial=False)
+            continue
+        st = res["c06_stats"]
+        out.account(d, res, V, (d["meta"]["digest"], uid, opt, val), nontrivial=st["analyses"] >= 50)
+        out.stat("exotic_option_values", 1)
+        out.stat("rule_reports_compared", st["compared"])
+        out.stat("rule_analyses_executed", st["analyses"])
+        out.d["steps"] += st["analyses"]
         if V:
             out.violation(res.get("c06_followup_desc") or d, V)
     return out.done()
@@ -419,6 +490,8 @@ def run_job(job, env):
         return run_breadth(job, env)
     if job["mode"] == "cli-repeat":
         return run_cli_repeat(job, env)
+    if job["mode"] == "exotic":
+        return run_exotic(job, env)
     out = common.JobResult(job)
     if job["mode"] == "regress":
         d = common.regress_desc(job)
